@@ -1362,6 +1362,111 @@ theorem relay_response_roundtrip_fold (reqMethod : Bytes) (r : RespHead) (body r
       subst hp
       exact ⟨.eof, by simp⟩
 
+/-! ### `FramingFieldsPlain` is not an assumption: it follows from `validate_headers` -/
+
+private theorem mem_getAll {fs : List Field} {f : Field} {n : Bytes} (hf : f ∈ fs) (hn : asciiLower f.1 = n) : f.2 ∈ getAll fs n := by
+  simp only [getAll, List.mem_map, List.mem_filter]
+  exact ⟨f, ⟨hf, by simp [hn]⟩, rfl⟩
+
+private theorem value_no_cr_plain (pf : PField) (h13 : (13 : UInt8) ∉ pf.value) (hs : stripBy isOws pf.value = pf.value) :
+    pf.qs = [] ∧ stripBy isOws pf.q0 = pf.q0 := by
+  cases hq : pf.qs with
+  | nil => simp [PField.value, hq, joinWith] at hs; exact ⟨rfl, hs⟩
+  | cons q r =>
+    exfalso; apply h13
+    simp [PField.value, hq, joinWith, crlf]
+
+/-- **framing_fields_plain**: in a message `validate_headers` accepts, Content-Length and Transfer-Encoding are not folded and
+    carry no surrounding OWS (a folded one contains CR LF, which neither `parse_content_length` nor the Transfer-Encoding
+    whitelist lets through) -/
+theorem framing_fields_plain (kind : Kind) (version reason : Bytes) (pfs : List PField)
+    (hv : validateHeaders kind version reason (pfs.map PField.field) = true) : FramingFieldsPlain pfs := by
+  intro pf hpf hname
+  obtain ⟨hall, hc⟩ := validate_cases hv
+  have hmem : pf.field ∈ pfs.map PField.field := List.mem_map_of_mem hpf
+  have key : (13 : UInt8) ∉ pf.value ∧ stripBy isOws pf.value = pf.value := by
+    rcases hname with hn | hn
+    · have hv1 : pf.value ∈ getAll (pfs.map PField.field) sTE := mem_getAll hmem (by simpa [PField.field] using hn)
+      rcases hc with ⟨t, cls, w, hte, _, _, hpt, _⟩ | ⟨c, n, hte, _, _⟩ | ⟨hte, _⟩
+      · rw [hte] at hv1; simp at hv1; rw [hv1]; exact parseTE_plain hpt
+      · rw [hte] at hv1; simp at hv1
+      · rw [hte] at hv1; simp at hv1
+    · have hv1 : pf.value ∈ getAll (pfs.map PField.field) sCL := mem_getAll hmem (by simpa [PField.field] using hn)
+      rcases hc with ⟨t, cls, w, _, hcl, _, _, _⟩ | ⟨c, n, _, hcl, hpc⟩ | ⟨_, hcl⟩
+      · rw [hcl] at hv1; simp at hv1
+      · rw [hcl] at hv1; simp at hv1; subst hv1
+        have hvo : valueOk pf.value = true := (hall pf.field hmem).2
+        have hpc' : clDigits pf.value = some n := by
+          have := dropFinalLF_id (valueOk_last hvo)
+          simpa [parseCL, this] using hpc
+        obtain ⟨_, hd, _⟩ := clDigits_spec hpc'
+        constructor
+        · intro hm
+          have := List.all_eq_true.mp hd 13 hm
+          revert this; decide
+        · exact stripBy_all_false (by
+            apply List.all_eq_true.mpr
+            intro x hx
+            exact digit_not_ows x (List.all_eq_true.mp hd x hx))
+      · rw [hcl] at hv1; simp at hv1
+  exact value_no_cr_plain pf key.1 key.2
+
+/-- **forward_request_roundtrip_obsfold**: `forward_request_roundtrip_fold` without the `FramingFieldsPlain` hypothesis -/
+theorem forward_request_roundtrip_obsfold (r : ReqHead) (body rest : Bytes)
+    (hv : validateHeaders .request r.version [] r.fields = true) (hl : RequestLineOk r)
+    (pfs : List PField) (hpf : r.fields = pfs.map PField.field) (hok : ∀ pf ∈ pfs, pf.ok)
+    (hb : BodyConsistent r body) :
+    ∃ fr, Ref.parseRequest (forwardRequest r body ++ rest) =
+      .ok (⟨r.method, requestTarget r, r.version, pfs.map PField.ufield, body, fr⟩, rest) :=
+  forward_request_roundtrip_fold r body rest hv hl pfs hpf hok
+    (framing_fields_plain .request r.version [] pfs (by rw [← hpf]; exact hv)) hb
+
+/-- **relay_response_roundtrip_obsfold**: `relay_response_roundtrip_fold` without the `FramingFieldsPlain` hypothesis -/
+theorem relay_response_roundtrip_obsfold (reqMethod : Bytes) (r : RespHead) (body rest : Bytes) (eof : Bool)
+    (hv : validateHeaders (.response r.status) r.version r.reason r.fields = true)
+    (hhd : versionOk r.version = true ∧ (100 ≤ r.status ∧ r.status ≤ 999) ∧ cleanLine r.reason)
+    (pfs : List PField) (hpf : r.fields = pfs.map PField.field) (hnm : ∀ pf ∈ pfs, (10 : UInt8) ∉ pf.name) (hokf : ∀ pf ∈ pfs, pf.ok)
+    (hconn : ¬(asciiUpper reqMethod = sCONNECT ∧ 200 ≤ r.status ∧ r.status ≤ 299))
+    (hb : RespBodyConsistent reqMethod r body rest eof) :
+    ∃ fr, Ref.parseResponse reqMethod eof (relayResponse reqMethod r body ++ rest) =
+      .ok (⟨r.version, decDigits r.status, r.reason, pfs.map PField.ufield, body, fr⟩, rest) :=
+  relay_response_roundtrip_fold reqMethod r body rest eof hv hhd pfs hpf hnm hokf
+    (framing_fields_plain (.response r.status) r.version r.reason pfs (by rw [← hpf]; exact hv)) hconn hb
+
+/-- **forward_stream_roundtrip_obsfold**: the pipelined-stream theorem with obs-fold in the field values: the concatenation of
+    what the proxy writes for a list of validated requests (fields given by their CRLF-separated parts) with consistent bodies
+    is read by the reference reader as exactly that list — same number and order, method, target, unfolded fields, body —
+    and nothing is left over -/
+theorem forward_stream_roundtrip_obsfold : ∀ (ms : List (ReqHead × List PField × Bytes)) (f : Nat),
+    (∀ m ∈ ms, validateHeaders .request m.1.version [] m.1.fields = true ∧ RequestLineOk m.1 ∧
+       m.1.fields = m.2.1.map PField.field ∧ (∀ pf ∈ m.2.1, pf.ok) ∧ BodyConsistent m.1 m.2.2) →
+    ms.length < f →
+    (Ref.parseRequests f (ms.map fun m => forwardRequest m.1 m.2.2).flatten).2 = none ∧
+    (Ref.parseRequests f (ms.map fun m => forwardRequest m.1 m.2.2).flatten).1.map (fun m => (m.a, m.b, m.fields, m.body)) =
+      ms.map (fun m => (m.1.method, requestTarget m.1, m.2.1.map PField.ufield, m.2.2))
+  | [], f, _, hf => by
+    cases f with
+    | zero => omega
+    | succ f => simp [Ref.parseRequests]
+  | (r, pfs, body) :: ms, f, h, hf => by
+    cases f with
+    | zero => omega
+    | succ f =>
+      obtain ⟨hv, hl, hpf, hok, hb⟩ := h (r, pfs, body) (by simp)
+      obtain ⟨ih1, ih2⟩ := forward_stream_roundtrip_obsfold ms f (fun m hm => h m (by simp [hm])) (by simp at hf; omega)
+      obtain ⟨c, tl, hct, h10, h13⟩ := forward_head hl body
+      obtain ⟨fr, hp⟩ := forward_request_roundtrip_obsfold r body (ms.map fun m => forwardRequest m.1 m.2.2).flatten hv hl pfs hpf hok hb
+      simp only [List.map_cons, List.flatten_cons]
+      have hdata : forwardRequest r body ++ (ms.map fun m => forwardRequest m.1 m.2.2).flatten =
+          c :: (tl ++ (ms.map fun m => forwardRequest m.1 m.2.2).flatten) := by rw [hct]; rfl
+      rw [Ref.parseRequests.eq_def]
+      simp only
+      rw [hdata]
+      simp only [h10, h13, false_and, ↓reduceIte]
+      rw [← hdata, hp]
+      simp only
+      exact ⟨ih1, by simp [ih2]⟩
+
 /-- a folded field satisfying the hypotheses of the fold theorems: `X: a CRLF SP b` -/
 example : (⟨[88], [97], [[32, 98]]⟩ : PField).ok := by
   refine ⟨⟨by decide, by decide⟩, by decide, ?_⟩
